@@ -159,6 +159,8 @@ class P:
         return "+".join(parts).replace("+-", "-")
 
 
+import re as _re
+_SEQ_ATOM = _re.compile(r"^([NM]_\w+)\[(.*)\]$")
 ONE = P.const(1)
 ZERO = P()
 
@@ -187,6 +189,16 @@ class Facts:
 
     def norm(self, p: P) -> P:
         p = P.of(p)
+        if self.seq:
+            m = {}
+            for a in p.atoms():
+                mm = _SEQ_ATOM.match(a)
+                if mm:
+                    rep = self.seq_rep(mm.group(1))
+                    if rep != mm.group(1):
+                        m[a] = P.atom(f"{rep}[{mm.group(2)}]")
+            if m:
+                p = p.subs(m)
         for _ in range(8):
             q = p.subs(self.sub)
             if q == p:
@@ -206,10 +218,18 @@ class Facts:
             if x.is_monomial():
                 (k, v), = x.t.items()
                 if v == 1 and len(k) == 1 and k[0][1] == 1 and k[0][0] not in y.atoms():
-                    self.sub[k[0][0]] = y
-                    self.log.append(f"{k[0][0]} := {y} ({why})")
+                    self.set_sub(k[0][0], y, why)
                     return True
         return False
+
+    def set_sub(self, atom: str, value: "P", why=""):
+        self.sub[atom] = value
+        self.log.append(f"{atom} := {value} ({why})")
+        # fixing the order of an operand fixes its closing rank: R_x[d] = 1
+        if atom.startswith("d_"):
+            c = value.const_value()
+            if c is not None:
+                self.sub[f"R_{atom[2:]}[{int(c)}]"] = ONE
 
     def lower(self, atom):
         if atom.startswith("~"):
